@@ -1,6 +1,6 @@
 (* C31 — lemmas about the model of SFTPServer.set_file_attr. *)
 From Coq Require Import ZArith List Bool Lia ZifyBool.
-From PV Require Import Bytes C31.
+From PV Require Import Bytes C31_gen C31.
 Import ListNotations.
 Open Scope Z_scope.
 
@@ -143,3 +143,38 @@ Lemma wplus_loses_data :
 Proof.
   exists 0, (mkfile [7; 8; 9] 420 0 0 0 0), 2. split; [cbn; lia|]. cbv. discriminate.
 Qed.
+
+(* ---- sequences ------------------------------------------------------------------ *)
+Lemma sftp_op_os_op h f o : sftp_op h f o = os_op f o.
+Proof. destruct h, o; reflexivity. Qed.
+
+(* any sequence of chmod/chown/utime/truncate requests, by path or by handle, interleaved with
+   arbitrary other changes to the file, has the effect of the same sequence of os.* calls *)
+Lemma sequence_spec : forall evs f, fold_left sftp_event evs f = fold_left os_event evs f.
+Proof.
+  induction evs as [|e evs IH]; intros f; [reflexivity|].
+  cbn [fold_left]. destruct e as [h o|g]; cbn [sftp_event os_event].
+  - rewrite sftp_op_os_op. apply IH.
+  - apply IH.
+Qed.
+
+(* in particular a later request does not repeat an earlier one: truncate, write, chmod *)
+Lemma later_request_independent now1 f n now2 at2 off b m :
+  let f1 := fsetstat now1 f (req_truncate n) in
+  let f2 := env_write at2 now2 f1 off b in
+  let f3 := fsetstat 0 f2 (req_chmod m) in
+  f_data f3 = f_data f2 /\ f_mtime f3 = f_mtime f2 /\ f_atime f3 = f_atime f2.
+Proof. cbn. repeat split. Qed.
+
+(* ---- the source still has the steps that are modelled --------------------------------- *)
+(* gen_steps is regenerated from the AST of SFTPServer.set_file_attr on every run: same four
+   flag tests, same calls with the same arguments, same order, resize through open(.., "r+") *)
+Lemma steps_as_modelled : gen_steps = modelled_steps.
+Proof. reflexivity. Qed.
+
+Lemma flag_bits_distinct :
+  Z.land FLAG_SIZE FLAG_UIDGID = 0 /\ Z.land FLAG_SIZE FLAG_PERMISSIONS = 0 /\ Z.land FLAG_SIZE FLAG_AMTIME = 0 /\
+  Z.land FLAG_UIDGID FLAG_PERMISSIONS = 0 /\ Z.land FLAG_UIDGID FLAG_AMTIME = 0 /\
+  Z.land FLAG_PERMISSIONS FLAG_AMTIME = 0 /\
+  0 < FLAG_SIZE /\ 0 < FLAG_UIDGID /\ 0 < FLAG_PERMISSIONS /\ 0 < FLAG_AMTIME.
+Proof. cbv. repeat split. Qed.
